@@ -1,5 +1,5 @@
 (* C17 model runner.  One case per line:
-   <id> T|A|W <pred> <maxretry> <minw> <maxw> <tbl> <dflt> <cancel> <bodykind> <hexbody> <script> <opts>
+   <id> T|A|W|U|u <pred> <maxretry> <minw> <maxw> <tbl> <dflt> <cancel> <bodykind> <hexbody> <script> <opts>
         opts    harness-only options the code under test must not depend on (u = ContentLength left
                 unknown, method=..., preauth = auth client stack with Authorization preset); ignored here
         tbl     comma separated integers, or -
@@ -86,6 +86,12 @@ let show_result (r : result) : string =
 
 let rec length_int l = List.length l
 
+let show_attempts_list (orig : str) (l : (z * str) list) : string =
+  match l with
+  | [] -> "-"
+  | l -> String.concat "," (List.map (fun (t, got) ->
+      string_of_z t ^ ":" ^ (if is_prefix got orig then string_of_int (List.length got) else "BAD")) l)
+
 let show_attempts (orig : str) (tr : event list) : string =
   match attempts tr with
   | [] -> "-"
@@ -125,7 +131,7 @@ let guarded = exp_backoff_guarded
 let () =
   iter_lines (fun l ->
     match split_ws l with
-    | [id; ("T" | "A" | "W") as op; pred; mr; mn; mx; tbl; dflt; cn; kind; body; script; _opts] ->
+    | [id; ("T" | "A" | "W" | "U" | "u") as op; pred; mr; mn; mx; tbl; dflt; cn; kind; body; script; _opts] ->
       let p = table_policy (parse_pred pred) (z_of_string mr) (z_of_string mn) (z_of_string mx)
           (List.map z_of_string (split_on ',' tbl)) (z_of_string dflt) in
       let manifest, kind' =
@@ -136,7 +142,16 @@ let () =
       let bd = match manifest with Some a -> manifest_push_body a bd0 | None -> bd0 in
       let sc = List.map parse_beh (split_on ';' script) in
       let cn = parse_cancel cn in
-      if op = "T" then begin
+      if op = "U" || op = "u" then begin
+        (* blob push through the Repository: U = auth client, u = plain retrying client *)
+        let u = blob_push (op = "U") p cn bd sc in
+        let atts a = show_attempts_list bd.bdata a in
+        let put1, put2 = match u.u_put with
+          | Some a -> atts (attempts a.a_first), atts (attempts a.a_second)
+          | None -> "-", "-" in
+        Printf.printf "%s %s end=%s post=%s|%s put=%s|%s\n" id (show_result u.u_res) (string_of_z u.u_time)
+          (atts (attempts u.u_post.a_first)) (atts (attempts u.u_post.a_second)) put1 put2
+      end else if op = "T" then begin
         let o = round_trip p cn bd (init_state bd) sc Z0 in
         Printf.printf "%s %s end=%s first=%s\n" id (show_result o.o_res) (string_of_z o.o_time)
           (show_attempts bd.bdata o.o_trace)
